@@ -119,12 +119,13 @@ def run(tier, seed, t0):
             if impl != m:
                 raise C.Violation(PROP, "correspondence parse model vs Response::from_bytes fails (model stale; the implementation-side oracle found no violating pair)",
                                   "stream %s\ninput %s\nimplementation: %s\nmodel:          %s" % (stream, C.show_input(h), impl[:400], m[:400]), False)
+    fn_cases, fn_count = C.fn_correspondence(PROP, tier)   # every callable parser function on its own inputs, model vs code
     C.write_evidence(PROP, tier, seed, t0, obligations=proof["obligations"] + 1, discharged=proof["discharged"] + 1,
                      checker_cmd="tools/rs2coq /repo coq/gen && make -C coq Properties/C02.vo (coqc 8.16.1) + harness parse {valid,prefix,stability,mutate} vs ocaml/driver parse",
                      evaluations=total + evals, distinct_nontrivial=distinct,
                      rule="search oracle (implementation only): every proper prefix of generated responses of every kind must be INC; for pairs (B, X) with B a whole/prefix/mutated/spliced response and X empty-response/random bytes/garbage line/token, verdict(B) in {OK, ERR} implies result(B++X) == result(B). distinct_nontrivial = distinct prefixes plus distinct (B,X) pairs whose B verdict is accept or reject. Correspondence: model result == implementation result (verdict, consumed, value) on 4 streams.",
                      samples=samples,
-                     extra=dict(theorems=proof["names"], correspondence_cases=evals),
+                     extra=dict(theorems=proof["names"], correspondence_cases=evals, per_function_cases=fn_cases, per_function_fns=fn_count),
                      assumptions=["nom 7.1.3 streaming primitives and combinators are modelled (Nom.v, Interp.v step), validated by the correspondence",
                                   "the theorem is about `parse` = the interpreter run on the grammar regenerated from /repo by rs2coq with fuel 400 and loop bound |buffer|+1; C01 shows neither is ever the reason for a verdict"])
     print("C02 ok: %d theorems; search %d cases; correspondence %d cases" % (proof["obligations"], total, evals))
